@@ -18,14 +18,18 @@ import (
 
 // tracks Policer's check progress.
 type nodeCache struct {
-	nodes   map[uint64]bool
-	metrics MetricsCollector
+	nodes map[uint64]bool
+	// nodes considered as replica holders only because they are under
+	// maintenance: their copies have not been confirmed.
+	unchecked map[uint64]struct{}
+	metrics   MetricsCollector
 }
 
 func newNodeCache(metrics MetricsCollector) *nodeCache {
 	return &nodeCache{
-		nodes:   make(map[uint64]bool),
-		metrics: metrics,
+		nodes:     make(map[uint64]bool),
+		unchecked: make(map[uint64]struct{}),
+		metrics:   metrics,
 	}
 }
 
@@ -42,6 +46,14 @@ func (n *nodeCache) submitReplicaCandidate(node netmap.NodeInfo) {
 // submits storage node as a current object replica holder.
 func (n *nodeCache) submitReplicaHolder(node netmap.NodeInfo) {
 	n.set(node, true)
+}
+
+// submits storage node under maintenance as a current object replica holder
+// without confirmation. Such nodes prevent new replicas from being created but
+// are never a reason to remove the local one.
+func (n *nodeCache) submitUncheckedReplicaHolder(node netmap.NodeInfo) {
+	n.submitReplicaHolder(node)
+	n.unchecked[node.Hash()] = struct{}{}
 }
 
 // processStatus returns current processing status of the storage node
@@ -74,11 +86,14 @@ func (n *nodeCache) SubmitSuccessfulReplication(node netmap.NodeInfo) {
 }
 
 // checks whether at least one remote container node holds particular object
-// replica (including as a result of successful replication).
+// replica (including as a result of successful replication). Nodes under
+// maintenance are not taken into account since their replicas are unchecked.
 func (n nodeCache) atLeastOneHolder() bool {
-	for _, v := range n.nodes {
+	for k, v := range n.nodes {
 		if v {
-			return true
+			if _, ok := n.unchecked[k]; !ok {
+				return true
+			}
 		}
 	}
 
@@ -262,7 +277,7 @@ func (p *Policer) processNodes(ctx context.Context, plc *processPlacementContext
 		// prevent spam with new replicas.
 		// However, additional copies should not be removed in this case,
 		// because we can remove the only copy this way.
-		plc.checkedNodes.submitReplicaHolder(node)
+		plc.checkedNodes.submitUncheckedReplicaHolder(node)
 		shortage--
 		uncheckedCopies++
 
@@ -353,7 +368,10 @@ func (p *Policer) processNodes(ctx context.Context, plc *processPlacementContext
 		)
 
 		p.tryToReplicate(ctx, plc.object.Address, shortage, candidates, plc.checkedNodes)
-	} else if len(candidates) > 0 {
+		return
+	}
+
+	if len(candidates) > 0 {
 		// The required number of replicas exists, but some primary placement
 		// nodes are missing the object. Replicate to them so that the placement
 		// matches the policy.
@@ -366,9 +384,12 @@ func (p *Policer) processNodes(ctx context.Context, plc *processPlacementContext
 		)
 
 		p.tryToReplicate(ctx, plc.object.Address, uint32(len(candidates)), candidates, plc.checkedNodes)
-	} else if uncheckedCopies > 0 {
+	}
+
+	if uncheckedCopies > 0 {
 		// If we have more copies than needed, but some of them are from the maintenance nodes,
-		// save the local copy.
+		// save the local copy. This does not depend on whether replication to the
+		// candidates above has been attempted.
 		plc.needLocalCopy = true
 		p.log.Debug("some of the copies are stored on nodes under maintenance, save local copy",
 			zap.Int("count", uncheckedCopies))
